@@ -384,3 +384,40 @@ theorem no_exit_before_term {V} (m : Method) (es : List (Ev V)) (hd : ∀ e ∈ 
   (view_foldl m es hd {} ⟨rfl, rfl⟩ []).2.1.1
 
 end SFV.Loop
+
+namespace SFV.Loop
+open SFV
+
+/-- **provenance of a loop output.** Whenever a body output or an iteration termination makes the step emit for an instance, the
+    inputs recorded for the emitted token are exactly the body outputs collected for that instance, of which the output is
+    `_process_output` -/
+theorem provOfStep_data {V} (m : Method) (s : St V) (e : Ev V) (hq : Quiet s) (hd : IsData e) :
+    ∀ p ∈ provOfStep m s e, processOutput m p.1 p.2 ∈ (step m s e).out ∧ evKey e = some p.1 := by
+  cases e with
+  | term st => exact (hd : False).elim
+  | data t =>
+    intro p hp
+    simp only [provOfStep] at hp
+    rw [step_data m s t hq] at hp ⊢
+    unfold check at hp ⊢
+    split at hp
+    · rename_i hem
+      simp only [hem, if_true]
+      simp only [addTok, List.drop_left, List.map_cons, List.map_nil, List.mem_singleton, processOutput_tag] at hp
+      subst hp
+      exact ⟨by simp [addTok], by simp [evKey]⟩
+    · simp [addTok] at hp
+  | iterTerm tag =>
+    intro p hp
+    simp only [provOfStep] at hp
+    rw [step_iterTerm m s tag hq] at hp ⊢
+    unfold check at hp ⊢
+    split at hp
+    · rename_i hem
+      simp only [hem, if_true]
+      simp only [setSize, List.drop_left, List.map_cons, List.map_nil, List.mem_singleton, processOutput_tag] at hp
+      subst hp
+      exact ⟨by simp [setSize], by simp [evKey]⟩
+    · simp [setSize] at hp
+
+end SFV.Loop
